@@ -32,6 +32,9 @@ use watchexec::{
 #[derive(Clone, Debug, Deserialize)]
 struct Script {
 	id: String,
+	/// capacity of the event queue the worker feeds (the callback uses try_send)
+	#[serde(default = "default_cap")]
+	ev_cap: u64,
 	init_paths: Vec<String>,
 	#[serde(default)]
 	fail_watch: Vec<String>,
@@ -53,6 +56,16 @@ struct Step {
 	set_kind: Option<String>,
 	#[serde(default)]
 	other: bool,
+	/// the watcher's own callback delivers this many filesystem events in one go ...
+	#[serde(default)]
+	emit: usize,
+	/// ... followed by this many errors
+	#[serde(default)]
+	emit_err: usize,
+}
+
+fn default_cap() -> u64 {
+	1024
 }
 
 /// "a" = /vfs/a watched recursively, "a!" = /vfs/a watched non-recursively
@@ -98,6 +111,8 @@ struct Shared {
 	/// the live watcher: (serial, kind, registered path -> recursive)
 	live: Mutex<Option<(usize, &'static str, BTreeMap<PathBuf, bool>)>>,
 	serial: AtomicUsize,
+	/// the event callback the worker handed to the live watcher
+	handler: Mutex<Option<fsverif::Handler>>,
 }
 
 impl Shared {
@@ -217,11 +232,13 @@ async fn run_script(script: Script) -> Vec<Ev> {
 		fail_unwatch: script.fail_unwatch.iter().cloned().collect(),
 		live: Mutex::new(None),
 		serial: AtomicUsize::new(0),
+		handler: Mutex::new(None),
 	});
 
 	let mut reset = Ev::new("reset").a(script.id.clone());
 	reset.kids = Some(script.init_paths.iter().map(|p| serde_json::json!(p)).collect());
 	reset.pending = None;
+	reset.x = script.ev_cap as i64;
 	reset.fw = Some(script.fail_watch.clone());
 	reset.fu = Some(script.fail_unwatch.clone());
 	rec.rec(reset);
@@ -229,7 +246,8 @@ async fn run_script(script: Script) -> Vec<Ev> {
 
 	{
 		let shared = shared.clone();
-		fsverif::set_factory(Some(Arc::new(move |kind, _handler| {
+		fsverif::set_factory(Some(Arc::new(move |kind, handler| {
+			*shared.handler.lock().unwrap() = Some(handler);
 			let serial = shared.serial.fetch_add(1, Ordering::SeqCst) + 1;
 			shared.rec.rec(Ev::new("create").a(kind_name(kind)).x(serial as i64));
 			*shared.live.lock().unwrap() = Some((serial, kind_name(kind), BTreeMap::new()));
@@ -239,7 +257,7 @@ async fn run_script(script: Script) -> Vec<Ev> {
 	}
 
 	let (er_s, mut er_r) = mpsc::channel::<RuntimeError>(64);
-	let (ev_s, _ev_r) = priority::bounded(1024);
+	let (ev_s, ev_r) = priority::bounded::<watchexec_events::Event, watchexec_events::Priority>(script.ev_cap);
 	{
 		let rec = rec.clone();
 		tokio::spawn(async move {
@@ -247,6 +265,8 @@ async fn run_script(script: Script) -> Vec<Ev> {
 				let (op, path) = match &err {
 					RuntimeError::FsWatcher { err: FsWatcherError::PathAdd { path, .. }, .. } => ("watch", path.clone()),
 					RuntimeError::FsWatcher { err: FsWatcherError::PathRemove { path, .. }, .. } => ("unwatch", path.clone()),
+					RuntimeError::EventChannelTrySend { .. } => ("overflow", PathBuf::new()),
+					RuntimeError::FsWatcher { err: FsWatcherError::Event(_), .. } => ("callback", PathBuf::new()),
 					_ => ("other", PathBuf::new()),
 				};
 				rec.rec(Ev::new("error").a(op).b(path.file_name().map(|s| s.to_string_lossy().to_string()).unwrap_or_default()));
@@ -259,6 +279,31 @@ async fn run_script(script: Script) -> Vec<Ev> {
 	for s in script.steps.iter().filter(|s| s.at == "idle") {
 		rec.rec(Ev::new("idle"));
 		shared.apply(s);
+		if s.emit > 0 || s.emit_err > 0 {
+			rec.rec(Ev::new("emit").x(s.emit as i64).n(s.emit_err as i64));
+			let mut delivered_ok = true;
+			if let Some(h) = shared.handler.lock().unwrap().as_mut() {
+				for i in 0..s.emit {
+					let ev = notify::Event::new(notify::EventKind::Create(notify::event::CreateKind::File))
+						.add_path(PathBuf::from(format!("/vfs/a/file{i}")));
+					h.handle_event(Ok(ev));
+				}
+				for _ in 0..s.emit_err {
+					h.handle_event(Err(notify::Error::generic("injected callback error")));
+				}
+			}
+			// what reached the event queue: count, and whether each is the documented shape
+			let mut n = 0;
+			while let Ok((ev, prio)) = ev_r.try_recv() {
+				n += 1;
+				let shape_ok = prio == watchexec_events::Priority::Normal
+					&& ev.tags.iter().any(|t| matches!(t, watchexec_events::Tag::Source(watchexec_events::Source::Filesystem)))
+					&& ev.tags.iter().any(|t| matches!(t, watchexec_events::Tag::FileEventKind(_)))
+					&& ev.paths().count() == 1;
+				delivered_ok &= shape_ok;
+			}
+			rec.rec(Ev::new("event_out").x(n).a(if delivered_ok { "ok" } else { "bad" }));
+		}
 		tokio::time::sleep(Duration::from_millis(10)).await;
 	}
 	tokio::time::sleep(Duration::from_millis(50)).await;
